@@ -22,6 +22,14 @@ CLAIMED = {
    "Block shapes (1..K slices, empty to full, optimistic-handover switches) and eight leader-signed malformations are delivered to a real BlockstoreImpl in sampled orders with duplicates: exactly one FirstShred and Block, correct hash/parent, every shred/root/proof served and verifying, leader fast path equal; malformed or equivocating blocks yield exactly one InvalidBlock and no later Block.",
    "K <= 8 slices in quick, 40 in thorough; transactions are compared through the block hash (Merkle binding), not field by field.",
    "DESIGN.md §7 C13"),
+ "C14": ("exploration",
+   "One real Repair::repair_loop repairs a block from 2-7 peers over the simulated network: real RepairRequestHandlers with/without the block, silent peers and liars (wrong variant, aliased/wrong indices, wrong root, mutated proofs, other block's material, alternative last-flag signing by a Byzantine leader, duplicates, unsolicited answers, delays), with loss/duplication/stragglers until a drawn stabilisation time. Checked: announced/stored data hashes to the requested id, no panic, dissemination data untouched, completion within 20*REPAIR_TIMEOUT after stabilisation while an honest peer holds the block, honest responder answers verify or NACK.",
+   "Runs are capped by delivered events (NACK re-requests can grow geometrically when no peer holds the block); capped runs are counted, not flagged. One block per run.",
+   "DESIGN.md §7 C14"),
+ "C15": ("exploration",
+   "The two real callers of proof verification are driven through the network (repair requester under liars presenting aliased indices, non-last slices as last, mutated proofs: it must never act on a false position), and the verification functions are exercised directly on trees of 1..1024 (4096) leaves incl. powers of two +-1 under eight mutation classes including indices beyond the tree width and proof lengths 0..33.",
+   "Tree sizes sampled, not enumerated; second-preimage resistance of SHA-256 is assumed (a mutated proof that verifies is reported, not explained).",
+   "DESIGN.md §7 C15"),
  "C16": ("exploration",
    "2..40 independently constructed Rotor (both constructors) / Turbine / Trivial instances on a loss-free recording network with arbitrary delays: every shred a leader sends must reach every other validator, exactly once under Turbine/Trivial and through at most one relay broadcast under Rotor, for drawn validator counts, stakes, fanouts, construction times and call orders.",
    "Cache eviction (2^14 / 2^16 entries) is not reached in bounded runs.",
